@@ -73,7 +73,7 @@ func (w c06FailWallet) FundV2Transaction(t *types.V2Transaction, a types.Currenc
 }
 
 func TestVerifC06Life(t *testing.T) {
-	em := newVerifEmitter(t, "From HostdBase Require Import Base.\nFrom HostdActions Require Import Rows Liveness Liveness2 Liveness2G Liveness2R LivenessCorr.", "lcase", "lcheck")
+	em := newVerifEmitter(t, "From HostdBase Require Import Base.\nFrom HostdActions Require Import Rows Liveness Liveness2 Liveness2G Liveness1G Liveness2R LivenessCorr.", "lcase", "lcheck")
 	defer em.Close()
 
 	renterKey := types.NewPrivateKeyFromSeed(make([]byte, 32)).PublicKey()
@@ -267,9 +267,6 @@ func TestVerifC06Life(t *testing.T) {
 		choosePass := func(last bool) (run bool) {
 			fail.fund, fail.pool = false, false
 			pact = "(Pass true 0)"
-			if !v2 {
-				return true
-			}
 			switch r := rng.Intn(10); {
 			case r < 2 && !last:
 				pact, injected = "NoPass", true
@@ -300,6 +297,12 @@ func TestVerifC06Life(t *testing.T) {
 			}()
 			// an action the wallet could not fund or the pool refused must not be announced (a v2
 			// formation needs no funding: it may still be re-broadcast while the wallet is empty)
+			for _, set := range syncer.v1 {
+				// (tryFormationBroadcast announces a formation set even when the pool refused it; formations need no funding)
+				if last := set[len(set)-1]; (fail.pool || fail.fund) && len(last.FileContractRevisions)+len(last.StorageProofs) > 0 {
+					em.Monitor("refused-action-broadcast", fmt.Sprintf("tip %d fund-fails=%v pool-refuses=%v: a v1 set of %d transactions was handed to the syncer", h, fail.fund, fail.pool, len(set)))
+				}
+			}
 			for _, set := range syncer.v2 {
 				last := set[len(set)-1]
 				if fail.pool || (fail.fund && len(last.FileContractRevisions)+len(last.FileContractResolutions) > 0) {
@@ -329,10 +332,12 @@ func TestVerifC06Life(t *testing.T) {
 				if err != nil {
 					t.Fatal(err)
 				}
-				if held && c.Status == contracts.ContractStatusFailed {
-					em.Monitor("contract-with-held-data-failed", fmt.Sprintf("v1 tip %d window %d-%d", tip, ws, we))
+				// with injected failures the clause is c06_v1_one_attempt_suffices_partial
+				protected1 := held && (!injected || sentAny())
+				if protected1 && c.Status == contracts.ContractStatusFailed {
+					em.Monitor("contract-with-held-data-failed", fmt.Sprintf("v1 tip %d window %d-%d injected=%v", tip, ws, we, injected))
 				}
-				if held && formed() && tip >= we && c.Status != contracts.ContractStatusSuccessful {
+				if protected1 && formed() && tip >= we && c.Status != contracts.ContractStatusSuccessful {
 					em.Monitor("contract-with-held-data-not-successful", fmt.Sprintf("v1 tip %d window %d-%d: %v", tip, ws, we, c.Status))
 				}
 				em.Count("v1-row:" + c.Status.String())
@@ -394,10 +399,13 @@ func TestVerifC06Life(t *testing.T) {
 					if run {
 						sent = process(uint64(len(chain)))
 					}
-					chain[len(chain)-1].sent = chain[len(chain)-1].sent || sent
+					// v2 (Liveness2G.gstep2): the proof handed to the pool at the reverted position stays
+					// valid while the block at the proof height stays
+					carry := b.sent && h > ws
+					chain[len(chain)-1].sent = chain[len(chain)-1].sent || carry || sent
 					sent = chain[len(chain)-1].sent
 				}
-				op := "LRevert"
+				op := "L1GRevert " + pact
 				if v2 {
 					op = "LGRevert " + pact
 				}
@@ -456,7 +464,7 @@ func TestVerifC06Life(t *testing.T) {
 				rv = fmt.Sprintf("(Some %d%%N)", *b.rev)
 			}
 			if !v2 {
-				em.Step(fmt.Sprintf("LMine {| b_form := %v; b_rev := %s; b_proof := %v; b_missed := %v |}", b.form, rv, b.proof, b.end), observe(sent))
+				em.Step(fmt.Sprintf("L1GMine {| b_form := %v; b_rev := %s; b_proof := %v; b_missed := %v |} %s", b.form, rv, b.proof, b.end, pact), observe(sent))
 			} else {
 				fr := "None"
 				if b.form {
